@@ -158,4 +158,150 @@ CHECKS = {
             "ring-full waits are excluded for the ring queue (documented: the ring cannot cancel a wait for a slot); the flow buffer is exercised at every size",
         ],
     },
+    "C06": {
+        "level": "exploration",
+        "rule": "plans on one caching client: 2-7 tasks issuing DoCache (GET/HGET/GETRANGE/HGETALL), DoMultiCache (1-6 commands with duplicates), DoCache on MGET and the MGetCache helper over 1-5 keys with duplicates, own writes, deadlines and cancellations; tracking modes OPTIN, OPTIN+NOLOOP, OPTOUT, BCAST and BCAST+PREFIX; built-in store with CacheSizeEachConn 2-8 KiB or default, or NewSimpleCacheAdapter; TTLs 40 ms..60 s; ghost writers SET/HSET/DEL/MSET/PEXPIRE/FLUSHALL with values up to 1.5 kB; optional connection loss and an injected EXECABORT or error reply in the caching transaction; every read reply of the model carries the command text and the model sequence number of the read; oracle: a value returned by a call that started after the connection processed (callback step) an invalidation of its key, a flush or a connection loss must have been read by the model after that modification; every value is the reply to exactly the command asked; non-trivial = freshness was judged and an invalidation was processed or a hit served; distinct = distinct event-log hash",
+        "parts": [
+                {
+                        "module": "rueidis",
+                        "scenario": "csc",
+                        "quick": 8000,
+                        "thorough": 600000
+                },
+                {
+                        "module": "rueidis",
+                        "scenario": "csc",
+                        "variant": "batch",
+                        "quick": 3000,
+                        "thorough": 200000
+                }
+        ],
+        "expected_probes": [
+                "cache-hit-served",
+                "invalidation-processed",
+                "flush-invalidation",
+                "connection-lost-with-cache"
+        ],
+        "components": {
+                "real": REAL,
+                "stubs": STUBS
+        },
+        "assumptions": [
+                "freshness is judged on single-connection clients, where OnInvalidations callbacks are attributable to the caching connection; callbacks are paired one-to-one with the model's invalidation pushes (that pairing is itself checked as C27)",
+                "argument vocabularies are fixed-width so command identities are unambiguous (the concatenation ambiguity of CacheKey is a pure-input matter, see C08)"
+        ]
+},
+    "C09": {
+        "level": "exploration",
+        "rule": "plans on one caching client: 2-7 tasks issuing DoCache (GET/HGET/GETRANGE/HGETALL), DoMultiCache (1-6 commands with duplicates), DoCache on MGET and the MGetCache helper over 1-5 keys with duplicates, own writes, deadlines and cancellations; tracking modes OPTIN, OPTIN+NOLOOP, OPTOUT, BCAST and BCAST+PREFIX; built-in store with CacheSizeEachConn 2-8 KiB or default, or NewSimpleCacheAdapter; TTLs 40 ms..60 s; ghost writers SET/HSET/DEL/MSET/PEXPIRE/FLUSHALL with values up to 1.5 kB; optional connection loss and an injected EXECABORT or error reply in the caching transaction; every read reply of the model carries the command text and the model sequence number of the read; oracle: per connection, a second request for a cached command must not reach the server between the moment the first one was sent and the step in which its reply was delivered to the client, provided the first one's owner returned its value (not abandoned); non-trivial/distinct as C06",
+        "parts": [
+                {
+                        "module": "rueidis",
+                        "scenario": "csc",
+                        "quick": 8000,
+                        "thorough": 600000
+                },
+                {
+                        "module": "rueidis",
+                        "scenario": "csc",
+                        "variant": "abandoned-chain",
+                        "quick": 500,
+                        "thorough": 20000
+                }
+        ],
+        "expected_probes": [
+                "cache-hit-served"
+        ],
+        "components": {
+                "real": REAL,
+                "stubs": STUBS
+        },
+        "assumptions": [
+                "a flight whose owner did not return a value (cancelled, failed) is not judged; waiters receiving the owner's reply or error is judged through the identity rule of C06"
+        ]
+},
+    "C10": {
+        "level": "exploration",
+        "rule": "plans on one caching client: 2-7 tasks issuing DoCache (GET/HGET/GETRANGE/HGETALL), DoMultiCache (1-6 commands with duplicates), DoCache on MGET and the MGetCache helper over 1-5 keys with duplicates, own writes, deadlines and cancellations; tracking modes OPTIN, OPTIN+NOLOOP, OPTOUT, BCAST and BCAST+PREFIX; built-in store with CacheSizeEachConn 2-8 KiB or default, or NewSimpleCacheAdapter; TTLs 40 ms..60 s; ghost writers SET/HSET/DEL/MSET/PEXPIRE/FLUSHALL with values up to 1.5 kB; optional connection loss and an injected EXECABORT or error reply in the caching transaction; every read reply of the model carries the command text and the model sequence number of the read; oracle (in-package monitor after every scheduler step): for every built-in store, the sizes of the completed entries retained sum to the accounted size, and that sum is at most CacheSizeEachConn; non-trivial/distinct as C06",
+        "parts": [
+                {
+                        "module": "rueidis",
+                        "scenario": "csc",
+                        "quick": 8000,
+                        "thorough": 600000
+                },
+                {
+                        "module": "rueidis",
+                        "scenario": "csc",
+                        "variant": "batch",
+                        "quick": 3000,
+                        "thorough": 200000
+                }
+        ],
+        "expected_probes": [
+                "cache-hit-served"
+        ],
+        "components": {
+                "real": REAL,
+                "stubs": STUBS
+        },
+        "assumptions": [
+                "the monitor runs at every quiescent point, i.e. after the goroutines that performed a cache update have run to their next blocking point",
+                "eviction order (LRU-first) is not judged beyond the bound: hits refresh recency only every 1024th time by design"
+        ]
+},
+    "C11": {
+        "level": "exploration",
+        "rule": "plans on one caching client: 2-7 tasks issuing DoCache (GET/HGET/GETRANGE/HGETALL), DoMultiCache (1-6 commands with duplicates), DoCache on MGET and the MGetCache helper over 1-5 keys with duplicates, own writes, deadlines and cancellations; tracking modes OPTIN, OPTIN+NOLOOP, OPTOUT, BCAST and BCAST+PREFIX; built-in store with CacheSizeEachConn 2-8 KiB or default, or NewSimpleCacheAdapter; TTLs 40 ms..60 s; ghost writers SET/HSET/DEL/MSET/PEXPIRE/FLUSHALL with values up to 1.5 kB; optional connection loss and an injected EXECABORT or error reply in the caching transaction; every read reply of the model carries the command text and the model sequence number of the read; oracle: the value at position i (or under key i) carries the text of command i (GET k and an MGET element are the same entry by design); MGetCache returns exactly the input key set; variant batch runs multiplexed connections (PipelineMultiplex 1-2); non-trivial/distinct as C06",
+        "parts": [
+                {
+                        "module": "rueidis",
+                        "scenario": "csc",
+                        "variant": "batch",
+                        "quick": 8000,
+                        "thorough": 600000
+                },
+                {
+                        "module": "rueidis",
+                        "scenario": "csc",
+                        "quick": 3000,
+                        "thorough": 200000
+                }
+        ],
+        "expected_probes": [
+                "cache-hit-served"
+        ],
+        "components": {
+                "real": REAL,
+                "stubs": STUBS
+        },
+        "assumptions": [
+                "cluster clients are not covered yet"
+        ]
+},
+    "C27": {
+        "level": "exploration",
+        "rule": "plans on one caching client: 2-7 tasks issuing DoCache (GET/HGET/GETRANGE/HGETALL), DoMultiCache (1-6 commands with duplicates), DoCache on MGET and the MGetCache helper over 1-5 keys with duplicates, own writes, deadlines and cancellations; tracking modes OPTIN, OPTIN+NOLOOP, OPTOUT, BCAST and BCAST+PREFIX; built-in store with CacheSizeEachConn 2-8 KiB or default, or NewSimpleCacheAdapter; TTLs 40 ms..60 s; ghost writers SET/HSET/DEL/MSET/PEXPIRE/FLUSHALL with values up to 1.5 kB; optional connection loss and an injected EXECABORT or error reply in the caching transaction; every read reply of the model carries the command text and the model sequence number of the read; oracle: per caching connection the sequence of OnInvalidations callbacks equals the sequence of invalidation pushes the model sent on it (keys in order, nil for flush), never ahead of the model, plus nil at connection loss; non-trivial/distinct as C06",
+        "parts": [
+                {
+                        "module": "rueidis",
+                        "scenario": "csc",
+                        "quick": 8000,
+                        "thorough": 600000
+                }
+        ],
+        "expected_probes": [
+                "invalidation-processed",
+                "multi-key-invalidation",
+                "flush-invalidation",
+                "connection-lost-with-cache"
+        ],
+        "components": {
+                "real": REAL,
+                "stubs": STUBS
+        },
+        "assumptions": [
+                "dedicated clients with SetOnInvalidations (tracking off before reuse) are not covered yet"
+        ]
+},
 }
